@@ -45,21 +45,26 @@ def tree_then_bounded_branch(ast):
     return ast is not None and rec(ast)
 
 
+def _contains_tree(it):
+    return it[0] == "tree" or any(x[0] == "tree" for x in gen.walk_items([it]))
+
+
 def has_branch_after_tree(ast):
-    """A tree wildcard is followed (anywhere later in the same concatenation) by a branch token."""
+    """A token that is or contains a tree wildcard is followed, later in the same concatenation, by
+    an alternation or repetition."""
     def rec(g):
         items = gen.nonflag(g)
         seen_tree = False
         for it in items:
-            if it[0] == "tree":
-                seen_tree = True
-            elif it[0] in ("alt", "rep"):
+            if it[0] in ("alt", "rep"):
                 if seen_tree:
                     return True
                 if it[0] == "alt" and any(rec(b) for b in it[1]):
                     return True
                 if it[0] == "rep" and rec(it[1]):
                     return True
+            if _contains_tree(it):
+                seen_tree = True
         return False
     return ast is not None and rec(ast)
 
@@ -204,3 +209,78 @@ def patch_rooted_leading_tree(pattern):
         if pattern.startswith(old):
             return new + pattern[len(old):]
     return None
+
+
+def _sup_class(pos):
+    return {"first": "first", "middle": "mid", "last": "last", "only": "top", None: "top"}[pos]
+
+
+def _position(i, n):
+    if n == 1:
+        return "only"
+    if i == 0:
+        return "first"
+    if i == n - 1:
+        return "last"
+    return "middle"
+
+
+def edge_tree_signatures(ast):
+    """For every tree wildcard that is the first/last/only token of its concatenation: (its position
+    in that concatenation, the position class of its OUTERMOST enclosing branch in the top-level
+    concatenation -- what the encoder calls superposition --, leading separator). The known
+    superposition finding is exactly: the encoding of such a tree wildcard is a function of this
+    signature instead of what actually surrounds it. Two related expressions whose corresponding
+    tree wildcards have the same signatures must therefore still agree."""
+    out = set()
+
+    def rec(g, sup):
+        items = gen.nonflag(g)
+        n = len(items)
+        for i, it in enumerate(items):
+            pos = _position(i, n)
+            if it[0] == "tree" and pos != "middle":
+                out.add((pos, _sup_class(sup), bool(it[1])))
+            elif it[0] == "alt":
+                for b in it[1]:
+                    rec(b, sup if sup is not None else pos)
+            elif it[0] == "rep":
+                rec(it[1], sup if sup is not None else pos)
+    if ast is not None:
+        rec(ast, None)
+    return out
+
+
+def superposition_explains(lhs_asts, rhs_asts):
+    """True iff the edge tree wildcards of the two sides have different signatures (so the known
+    superposition finding can explain a disagreement between them)."""
+    if any(a is None for a in list(lhs_asts) + list(rhs_asts)):
+        return any(tree_at_branch_edge(a) for a in list(lhs_asts) + list(rhs_asts) if a is not None)
+    left = set()
+    for a in lhs_asts:
+        left |= edge_tree_signatures(a)
+    right = set()
+    for a in rhs_asts:
+        right |= edge_tree_signatures(a)
+    return left != right
+
+
+def ends_with_separator(ast):
+    items = gen.nonflag(ast) if ast else []
+    return bool(items) and (items[-1][0] == "sep" or
+                            (items[-1][0] == "alt" and any(ends_with_separator(b) for b in items[-1][1])))
+
+
+def exhaustive_heuristic_family(ast):
+    """The syntactic families in which is_exhaustive() is known to answer Always wrongly: a tree
+    wildcard followed by an alternation/repetition in the same concatenation, a closing repetition,
+    a trailing separator. (A pattern outside these families that wrongly reports Always is a new
+    violation.)"""
+    return ast is not None and (has_branch_after_tree(ast) or ends_with_repetition(ast)
+                                or ends_with_separator(ast) or tree_inside_repetition(ast))
+
+
+def tree_inside_repetition(ast):
+    """Some repetition body contains a tree wildcard (`<a/**>*`, `<a/**:0,1>{a}`)."""
+    return ast is not None and any(it[0] == "rep" and any(x[0] == "tree" for x in gen.walk_items(it[1]))
+                                   for it in gen.walk_items(ast))
